@@ -59,6 +59,9 @@ func gen(r *sim.Rng, tier string) *sim.Case {
 		}
 		p["runes"] = r.N(4) // 0 ascii, 1 mixed widths, 2 all 3-byte, 3 all 4-byte
 		p["n"] = r.N(201)
+		if r.Pct(10) {
+			p["n"] = r.N(1200)
+		}
 		if r.Pct(20) {
 			p["n"] = r.N(3)
 		}
@@ -72,6 +75,9 @@ func gen(r *sim.Rng, tier string) *sim.Case {
 		nr := r.Range(1, 4)
 		for i := 0; i < nr; i++ {
 			period := r.Range(1, 200)
+			if r.Pct(15) {
+				period = r.Range(1, 5000)
+			}
 			if i > 0 && r.Pct(25) {
 				period = c.Ops[i-1].K // equal periods
 			}
@@ -82,6 +88,9 @@ func gen(r *sim.Rng, tier string) *sim.Case {
 			c.Ops = append(c.Ops, sim.Op{Op: "Rule", K: period, V: r.Range(1, 30), D: interval, Ks: []int{r.Range(1, 9)}})
 		}
 		p["T"] = r.Range(10, 450)
+		if r.Pct(15) {
+			p["T"] = r.Range(450, 6000)
+		}
 		p["id"] = r.N(1 << 20)
 	}
 	c.EnvSeed = r.U64() >> 12
